@@ -21,9 +21,9 @@ def DATE(
     https://support.office.com/en-us/article/
         date-function-e36c0c8c-4104-49da-ab83-82328b832349
     """
-    if not (0 < year < 9999):
+    if not (0 <= year <= 9999):
         raise xlerrors.NumExcelError(
-            f'Year must be between 1 and 9999, got {year}')
+            f'Year must be between 0 and 9999, got {year}')
 
     if year < 1900:
         year = 1900 + year
@@ -31,9 +31,13 @@ def DATE(
     # Excel starts counting at 1 and today is inclusive, thus -2
     delta = relativedelta(
         years=year - 1900, months=int(month) - 1, days=int(day) - 1)
-    result = utils.EXCEL_EPOCH + delta
+    try:
+        result = utils.EXCEL_EPOCH + delta
+    except (ValueError, OverflowError):
+        raise xlerrors.NumExcelError(
+            f'Date result after {datetime.datetime.max}')
 
-    if result <= utils.EXCEL_EPOCH:
+    if result < utils.EXCEL_EPOCH:
         raise xlerrors.NumExcelError(
             f"Date result before {utils.EXCEL_EPOCH}")
 
